@@ -785,7 +785,7 @@ func estOf[K comparable](s *sketch[K], k K) uint64 {
 //@   requires cfg(c) && c.withMaintenance && t != nil && taskWf(t) && !ghost_buffered(t)
 //@   modifies $MAINT, $EVLOG, $ONDEL, ghost_queued(), ghost_calls_performCleanUp(), t.n, t.old, t.writeReason, t.deletionCause, ghost_buffered(*)
 //@   loop 1: invariant [wiring] wired(c) && taskWf(t) && !ghost_buffered(t)
-//@   loop 1: invariant [not-yet-accepted] ghost_queued() == pre(ghost_queued()) && ghost_calls_performCleanUp() == pre(ghost_calls_performCleanUp()) && i >= 0
+//@   loop 1: invariant [not-yet-accepted] ghost_queued() == pre(ghost_queued()) && ghost_calls_performCleanUp() == pre(ghost_calls_performCleanUp())
 //@   ensures [C05:write-event-never-dropped] (ghost_queued() == pre(ghost_queued())+1 && ghost_calls_performCleanUp() == pre(ghost_calls_performCleanUp())) || (ghost_queued() == pre(ghost_queued()) && ghost_calls_performCleanUp() == pre(ghost_calls_performCleanUp())+1 && ghost_last_performCleanUp_t[K, V]() == t)
 //@   ensures [clock-stable] pre(ghost_clockRead()) ==> ghost_clockRead() && ghost_now() == pre(ghost_now())
 //@   ensures [wiring-kept] pre(wired(c)) ==> wired(c)
@@ -1163,14 +1163,14 @@ func estOf[K comparable](s *sketch[K], k K) uint64 {
 //@ func (*policy).demoteFromMainProtected : C04 C05
 //@   requires ghost_hasSize() && wfPolicy(p)
 //@   modifies node::queueType, $LINKFX, ghost_inDeque(*), p.mainProtectedWeightedSize
-//@   loop 1: invariant [policy-wf] wfPolicy(p) && i >= 0
+//@   loop 1: invariant [policy-wf] wfPolicy(p)
 //@   site PushBack: requires [C05:demoted-node-left-the-protected-queue] demoted != nil && !ghost_inDeque(p.protected, demoted)
 //@   ensures [policy-wf-kept] wfPolicy(p)
 
 //@ func (*policy).increaseWindow : C04 C05
 //@   requires ghost_hasSize() && wfPolicy(p)
 //@   modifies $CLIMBFX
-//@   loop 1: invariant [policy-wf] wfPolicy(p) && i >= 0
+//@   loop 1: invariant [policy-wf] wfPolicy(p)
 //@   site Delete: requires [C05:moved-out-of-the-queue-it-is-in] candidate != nil && (probation ==> ghost_inDeque(p.probation, candidate)) && (!probation ==> ghost_inDeque(p.protected, candidate))
 //@   site PushBack: requires [C05:relinked-only-after-unlinking] candidate != nil && (probation ==> !ghost_inDeque(p.probation, candidate)) && (!probation ==> !ghost_inDeque(p.protected, candidate))
 //@   ensures [policy-wf-kept] wfPolicy(p)
@@ -1178,7 +1178,7 @@ func estOf[K comparable](s *sketch[K], k K) uint64 {
 //@ func (*policy).decreaseWindow : C04 C05
 //@   requires ghost_hasSize() && wfPolicy(p)
 //@   modifies $CLIMBFX
-//@   loop 1: invariant [policy-wf] wfPolicy(p) && i >= 0
+//@   loop 1: invariant [policy-wf] wfPolicy(p)
 //@   site Delete: requires [C05:moved-out-of-the-queue-it-is-in] candidate != nil && ghost_inDeque(p.window, candidate)
 //@   site PushBack: requires [C05:relinked-only-after-unlinking] candidate != nil && !ghost_inDeque(p.window, candidate)
 //@   ensures [policy-wf-kept] wfPolicy(p)
